@@ -116,6 +116,14 @@ fn postfix_base(e: &Expr) -> String {
     }
 }
 
+/// base of `.attr`, `[item]`, `[a:b]` and `(call)`: a filter application is not allowed there
+fn subscript_base(e: &Expr) -> String {
+    match e {
+        Expr::Filter(..) => format!("({})", expr(e)),
+        _ => postfix_base(e),
+    }
+}
+
 pub fn args(a: &[Arg]) -> String {
     a.iter()
         .map(|a| match a {
@@ -196,14 +204,14 @@ pub fn expr(e: &Expr) -> String {
             Some(e) => format!("{} if {} else {}", operand(t), operand(c), operand(e)),
             None => format!("{} if {}", operand(t), operand(c)),
         },
-        Expr::Attr(e, name) => format!("{}.{}", postfix_base(e), name),
-        Expr::Item(e, idx) => format!("{}[{}]", postfix_base(e), expr(idx)),
+        Expr::Attr(e, name) => format!("{}.{}", subscript_base(e), name),
+        Expr::Item(e, idx) => format!("{}[{}]", subscript_base(e), expr(idx)),
         Expr::Slice(e, a, b, c) => {
             let p = |x: &Option<Box<Expr>>| x.as_ref().map(|e| expr(e)).unwrap_or_default();
             if c.is_some() {
-                format!("{}[{}:{}:{}]", postfix_base(e), p(a), p(b), p(c))
+                format!("{}[{}:{}:{}]", subscript_base(e), p(a), p(b), p(c))
             } else {
-                format!("{}[{}:{}]", postfix_base(e), p(a), p(b))
+                format!("{}[{}:{}]", subscript_base(e), p(a), p(b))
             }
         }
         Expr::Filter(e, name, a) => {
@@ -221,7 +229,7 @@ pub fn expr(e: &Expr) -> String {
                 format!("{} is {}{}({})", postfix_base(e), not, name, args(a))
             }
         }
-        Expr::Call(f, a) => format!("{}({})", postfix_base(f), args(a)),
+        Expr::Call(f, a) => format!("{}({})", subscript_base(f), args(a)),
         Expr::Paren(e) => format!("({})", expr(e)),
     }
 }
